@@ -37,10 +37,155 @@ fn b64_dec_impl(s: &str) -> String {
     }
 }
 
+// ---- compact descriptions of long inputs (LENGTH sweeps; expanded identically by Driver/C18Gen.lean) ----
+
+/// One segment of a description (see `Driver/C18Gen.lean`).
+#[derive(Clone, Debug)]
+pub enum Seg {
+    /// `x<hex>`: these bytes
+    Lit(Vec<u8>),
+    /// `<n>*<hex>`: the pattern repeated cyclically, n bytes in all
+    Pat(usize, Vec<u8>),
+    /// `<n>r<seed>`: `Rng::new(seed).bytes(n)`
+    Rand(usize, u64),
+    /// `<n>b<seed>`: Base64 symbols `ALPHABET[byte % 64]` over `Rng::new(seed).bytes(n)`
+    B64(usize, u64),
+    /// `<n>c<start>`: counting bytes
+    Count(usize, u8),
+}
+
+pub fn desc_str(segs: &[Seg]) -> String {
+    if segs.is_empty() {
+        return "x".into();
+    }
+    segs.iter()
+        .map(|s| match s {
+            Seg::Lit(b) => format!("x{}", hex(b)),
+            Seg::Pat(n, p) => format!("{}*{}", n, hex(p)),
+            Seg::Rand(n, seed) => format!("{}r{}", n, seed),
+            Seg::B64(n, seed) => format!("{}b{}", n, seed),
+            Seg::Count(n, st) => format!("{}c{}", n, st),
+        })
+        .collect::<Vec<_>>()
+        .join("+")
+}
+
+pub fn desc_bytes(segs: &[Seg]) -> Vec<u8> {
+    let mut v = Vec::new();
+    for s in segs {
+        match s {
+            Seg::Lit(b) => v.extend_from_slice(b),
+            Seg::Pat(n, p) => v.extend((0..*n).map(|i| p[i % p.len()])),
+            Seg::Rand(n, seed) => v.extend(Rng::new(*seed).bytes(*n)),
+            Seg::B64(n, seed) => v.extend(Rng::new(*seed).bytes(*n).into_iter().map(|x| B64[(x % 64) as usize])),
+            Seg::Count(n, st) => v.extend((0..*n).map(|i| (i as u8).wrapping_add(*st))),
+        }
+    }
+    v
+}
+
+pub fn desc_parse(s: &str) -> Option<Vec<Seg>> {
+    let hexok = |h: &str| h.len() % 2 == 0 && h.bytes().all(|b| b.is_ascii_hexdigit());
+    let mut v = Vec::new();
+    for seg in s.split('+') {
+        if let Some(h) = seg.strip_prefix('x') {
+            if !hexok(h) {
+                return None;
+            }
+            v.push(Seg::Lit(unhex(h)));
+            continue;
+        }
+        let k = seg.find(|c: char| !c.is_ascii_digit())?;
+        let n: usize = seg[..k].parse().ok()?;
+        if n > 1 << 26 {
+            return None;
+        }
+        let rest = &seg[k + 1..];
+        v.push(match &seg[k..k + 1] {
+            "*" if hexok(rest) && !rest.is_empty() => Seg::Pat(n, unhex(rest)),
+            "r" => Seg::Rand(n, rest.parse().ok()?),
+            "b" => Seg::B64(n, rest.parse().ok()?),
+            "c" => Seg::Count(n, rest.parse::<u64>().ok()? as u8),
+            _ => return None,
+        });
+    }
+    Some(v)
+}
+
+/// FNV-1a (64 bit).
+pub fn fnv(b: &[u8]) -> u64 {
+    let mut h: u64 = 0xcbf29ce484222325;
+    for x in b {
+        h ^= *x as u64;
+        h = h.wrapping_mul(0x100000001b3);
+    }
+    h
+}
+
+/// Hex when short, `#<len>:<fnv64>` when longer than 64 bytes.
+pub fn hl(b: &[u8]) -> String {
+    if b.len() > 64 { format!("#{}:{:016x}", b.len(), fnv(b)) } else { hex(b) }
+}
+
+/// The lengths of the LENGTH sweeps: every length 0..=300 and, for every P of `SWEEP_P` up to `max_p`, P-72..=P+72
+/// (SHA-1 has a 64-byte block, Base64 groups of 3 / 4, percent escapes 3 bytes: every residue is met on both
+/// sides of P). `near(p)` = how far from P the lengths go for that P.
+pub const SWEEP_P: [usize; 8] = [512, 1024, 2048, 4096, 8192, 16384, 65536, 1 << 20];
+
+pub fn sweep_lengths(near: impl Fn(usize) -> usize) -> Vec<usize> {
+    let mut v: Vec<usize> = (0..=300).collect();
+    for p in SWEEP_P {
+        let d = near(p);
+        v.extend(p - d..=p + d);
+    }
+    v.sort();
+    v.dedup();
+    v
+}
+
+fn pctg_enc_impl(b: &[u8]) -> String {
+    match guarded(|| b.percent_encode()) {
+        Ok(s) => hl(s.as_bytes()),
+        Err(_) => "PANIC".into(),
+    }
+}
+
+fn pctg_dec_impl(s: &str) -> String {
+    match guarded(|| s.percent_decode()) {
+        Ok(Some(b)) => format!("some:{}", hl(&b)),
+        Ok(None) => "none".into(),
+        Err(_) => "PANIC".into(),
+    }
+}
+
+fn b64g_enc_impl(b: &[u8]) -> String {
+    match guarded(|| b.encode()) {
+        Ok(s) => hl(s.as_bytes()),
+        Err(_) => "PANIC".into(),
+    }
+}
+
+fn b64g_dec_impl(s: &str) -> String {
+    match guarded(|| s.decode()) {
+        Ok(Ok(b)) => format!("ok:{}", hl(&b)),
+        Ok(Err(())) => "err".into(),
+        Err(_) => "PANIC".into(),
+    }
+}
+
 /// Re-execute one case (`fn`, arg) on the implementation.
 pub fn exec(f: &[String]) -> Option<String> {
     if f.len() != 2 {
         return None;
+    }
+    if matches!(f[0].as_str(), "pctg_enc" | "pctg_dec" | "b64g_enc" | "b64g_dec") {
+        let arg = desc_bytes(&desc_parse(&f[1])?);
+        return match f[0].as_str() {
+            "pctg_enc" => Some(pctg_enc_impl(&arg)),
+            "pctg_dec" => Some(pctg_dec_impl(std::str::from_utf8(&arg).ok()?)),
+            "b64g_enc" => Some(b64g_enc_impl(&arg)),
+            _ => Some(b64g_dec_impl(std::str::from_utf8(&arg).ok()?)),
+        };
     }
     let arg = unhex(&f[1]);
     match f[0].as_str() {
@@ -178,6 +323,157 @@ fn b64_both(out: &mut Out, b: &[u8]) {
     }
 }
 
+fn len_class(n: usize) -> String {
+    match n {
+        0..=300 => "0..300".into(),
+        _ => {
+            let p = SWEEP_P.iter().min_by_key(|p| (**p as i64 - n as i64).abs()).unwrap();
+            format!("near-{}", p)
+        }
+    }
+}
+
+/// One LENGTH-sweep case: `name` on the described input.
+fn emit_g(out: &mut Out, name: &str, segs: &[Seg], kind: &str) {
+    let b = desc_bytes(segs);
+    let r = match name {
+        "pctg_enc" => {
+            let r = pctg_enc_impl(&b);
+            if r != hl(ref_pct_enc(&b).as_bytes()) {
+                out.count("pctg_enc:differs-from-rust-reference");
+            }
+            r
+        }
+        "pctg_dec" => pctg_dec_impl(std::str::from_utf8(&b).expect("decoder texts are UTF-8")),
+        "b64g_enc" => {
+            let r = b64g_enc_impl(&b);
+            if b.len() <= 70_000 && r != hl(ref_b64_enc(&b).as_bytes()) {
+                out.count("b64g_enc:differs-from-rust-reference");
+            }
+            r
+        }
+        _ => {
+            let r = b64g_dec_impl(std::str::from_utf8(&b).expect("decoder texts are UTF-8"));
+            if b.len() <= 70_000 {
+                let want = match ref_b64_dec(&b) {
+                    Some(d) => format!("ok:{}", hl(&d)),
+                    None => "err".into(),
+                };
+                if r != want {
+                    out.count("b64g_dec:differs-from-rust-reference");
+                }
+            }
+            r
+        }
+    };
+    out.count(&format!("fn={}", name));
+    out.count(&format!("{}:len:{}", name, len_class(b.len())));
+    out.count(&format!("{}:{}", name, kind));
+    let res = if r == "PANIC" { "PANIC" } else if r == "none" || r == "err" { "rejected" } else { "value" };
+    out.count(&format!("{}:result:{}", name, res));
+    out.case(&[name, &desc_str(segs)], &r, !b.is_empty());
+}
+
+/// LENGTH sweeps of the four list codecs. `reach(p)` = how far around P the lengths go; `contents` = how many
+/// content / layout variants per length (rotating through the rest so that every variant meets every residue).
+fn length_sweeps(out: &mut Out, thorough: bool, seed: u64) {
+    // quick: the full P-72..=P+72 up to 65536, P-8..=P+8 at 1 MiB; thorough: everything
+    let lens = sweep_lengths(|p| if thorough || p < (1 << 20) { 72 } else { 8 });
+    let big = |l: usize| l > 300;
+    let sd = |l: usize, k: u64| seed.wrapping_mul(1000003).wrapping_add(l as u64 * 16 + k) % 1_000_000_007;
+
+    // ---- every length 0..=300 in full (hex case lines, judged by the bit-level specifications as well)
+    for l in 0..=300usize {
+        for (k, b) in [vec![0u8; l], vec![0xff; l], (0..l).map(|i| i as u8).collect(), Rng::new(sd(l, 0)).bytes(l), Rng::new(sd(l, 1)).bytes(l)]
+            .iter()
+            .enumerate()
+        {
+            if thorough || k != 4 {
+                b64_both(out, b);
+                pct_both(out, b);
+            }
+        }
+        // Base64 text of every length: valid tails, wrong lengths, and one `=` / foreign symbol at every position
+        let body: Vec<u8> = Rng::new(sd(l, 2)).bytes(l).into_iter().map(|x| B64[(x % 64) as usize]).collect();
+        b64_dec(out, std::str::from_utf8(&body).unwrap());
+        for tail in ["QQ==", "QUI=", "Qf==", "QUJ="] {
+            b64_dec(out, &format!("{}{}", std::str::from_utf8(&body).unwrap(), tail));
+        }
+        if l <= if thorough { 300 } else { 136 } {
+            for p in 0..l {
+                for bad in [b'=', b'*'] {
+                    let mut t = body.clone();
+                    t[p] = bad;
+                    b64_dec(out, std::str::from_utf8(&t).unwrap());
+                }
+            }
+            // percent text of every length with one escape at every position (well-formed, lower case, damaged)
+            for p in 0..l.saturating_sub(2) {
+                for esc in ["%4A", "%e9", "%4g"] {
+                    let mut t = vec![b'a'; l];
+                    t[p..p + 3].copy_from_slice(esc.as_bytes());
+                    pct_dec(out, std::str::from_utf8(&t).unwrap());
+                }
+            }
+        }
+    }
+
+    // ---- the neighbourhoods of the powers of two: compact descriptions
+    let pats: [&[u8]; 6] = [b"%41", b"a%42", b"ab%7e", b"abcd%2F", b"abcdefghijklmn%C3", b"0123456789abcdefghijklmnopqrstuvwxyz0123456789ABCDEFGHIJKLMN-_%a9"];
+    for &l in lens.iter().filter(|l| big(**l)) {
+        let huge = l > 100_000;
+        let nvar = if thorough { 99 } else if huge { 1 } else { 2 };
+        let rot = l as u64;
+        // encoders: random bytes, then zeros / 0xff / counting (all of them in thorough, rotating in quick)
+        let contents = [Seg::Rand(l, sd(l, 3)), Seg::Pat(l, vec![0]), Seg::Pat(l, vec![0xff]), Seg::Count(l, l as u8), Seg::Pat(l, b"a~".to_vec())];
+        for k in 0..contents.len().min(nvar) {
+            let c = if k == 0 { contents[0].clone() } else if thorough { contents[k].clone() } else { contents[1 + (rot as usize) % 4].clone() };
+            emit_g(out, "b64g_enc", &[c.clone()], "content");
+            emit_g(out, "pctg_enc", &[c], "content");
+        }
+        // Base64 decoder: a text of exactly l symbols (valid only when l % 4 == 0), and texts whose LAST group
+        // ends at l with each tail shape
+        emit_g(out, "b64g_dec", &[Seg::B64(l, sd(l, 4))], "all-symbols");
+        let tails: [&[u8]; 4] = [b"QUJD", b"QUI=", b"QQ==", b"Qf=="];
+        for k in 0..tails.len().min(nvar) {
+            let t = if thorough { tails[k] } else { tails[(rot as usize + k) % 4] };
+            if l >= 4 {
+                emit_g(out, "b64g_dec", &[Seg::B64(l - 4, sd(l, 5)), Seg::Lit(t.to_vec())], "tail-shape");
+            }
+        }
+        // malformed: one `=` / foreign symbol near the start, near the end, in the middle
+        if !huge || thorough || l % 4 == 0 {
+            let positions = [0usize, 1, 2, 3, l / 2, l - 8, l - 5, l - 4, l - 3, l - 2, l - 1];
+            for k in 0..positions.len().min(if thorough { 99 } else { 2 }) {
+                let p = if thorough { positions[k] } else { positions[(rot as usize * 2 + k) % positions.len()] };
+                let bad = if (p + k) % 2 == 0 { b'=' } else { b'*' };
+                emit_g(out, "b64g_dec", &[Seg::B64(p, sd(l, 6)), Seg::Lit(vec![bad]), Seg::B64(l - p - 1, sd(l, 7))], "one-bad-symbol");
+            }
+        }
+        // percent decoder: periodic texts of length l (escape at every offset modulo 2^k since the periods are odd or
+        // coprime to the phase; cut inside the last escape for some l), shifted by 0..2 literal bytes
+        for k in 0..pats.len().min(if thorough { 99 } else if huge { 1 } else { 3 }) {
+            let pi = if thorough { k } else { (rot as usize + k * 2) % pats.len() };
+            let shift = (l + k) % 3;
+            emit_g(out, "pctg_dec", &[Seg::Lit(vec![b'-'; shift.min(l)]), Seg::Pat(l - shift.min(l), pats[pi].to_vec())], "periodic");
+        }
+        // random literals with an escape at the very start and one ending exactly at l / cut one or two bytes short
+        if l >= 8 {
+            let ends: [&[u8]; 4] = [b"%4a", b"%4", b"%", b"%zz"];
+            for k in 0..ends.len().min(if thorough { 99 } else { 1 }) {
+                let e = if thorough { ends[k] } else { ends[(rot as usize) % 4] };
+                emit_g(out, "pctg_dec", &[Seg::Lit(b"%4A".to_vec()), Seg::B64(l - 3 - e.len(), sd(l, 8)), Seg::Lit(e.to_vec())], "escape-at-both-ends");
+            }
+            emit_g(out, "pctg_dec", &[Seg::B64(l, sd(l, 9))], "all-literal");
+        }
+    }
+    out.extra.insert(
+        "length_sweeps_lists".into(),
+        format!("{} lengths: 0..=300 in full (hex lines), then P-72..=P+72 for P in {:?}{} as compact descriptions (Driver/C18Gen.lean)",
+            lens.len(), SWEEP_P, if thorough { "" } else { " (1 MiB: P-8..=P+8 in the quick tier)" }),
+    );
+}
+
 /// All strings of length 0..=max over `alpha`.
 fn all_strings(alpha: &[&str], max: usize) -> Vec<String> {
     let mut res = vec![String::new()];
@@ -254,6 +550,9 @@ pub fn gen(out: &mut Out, thorough: bool, seed: u64) {
         }
         pct_dec(out, &s);
     }
+
+    // ================= LENGTH sweeps (both codecs) =================
+    length_sweeps(out, thorough, seed);
 
     // ================= Base64 =================
     // lengths 0..64 with random contents (and all-zero / all-ones contents)
